@@ -554,6 +554,31 @@ def witnesses(ctx):
         run_accepted(sub2, m2, "hostile-name")
     hit = [v for v in sub2.violations if v["mechanism"] == "state-name-collides-with-jsonpath-lookup"]
     ctx.witness("state-name-collides-with-jsonpath-lookup", bool(hit), dict(kinds=sorted({v["kind"] for v in hit})))
+    # the Retry/Catch interpreter reached from a reply callback with a retrier that has no ErrorEquals
+    sub3 = type(ctx)(ctx.check_id, ctx.tier, ctx.seed)
+    poison_run(sub3, "definition", {"StartAt": "A", "States": {"A": dict(F.T("boom"), Retry=[{"MaxAttempts": 1}], End=True)}}, 0)
+    hit = [v for v in sub3.violations if v["mechanism"] == "exception-in-deferred-callback-escapes-the-engine"]
+    ctx.witness("exception-in-deferred-callback-escapes-the-engine", bool(hit), dict(kinds=sorted({v["kind"] for v in hit})))
+    for v in sub3.violations:
+        if v["mechanism"] != "exception-in-deferred-callback-escapes-the-engine":
+            ctx.violation(v["kind"], v["witness"], v["mechanism"])
+    # a caught failure of a nested Parallel whose continuation (and the outer sibling's Wait) is swallowed by the per-execution clean-up: the accepted
+    # machine never ends (C06's listed sibling finding seen from here)
+    Pz = lambda **k: dict(Type="Pass", **k)
+    m4 = {"StartAt": "S1", "States": {"S1": {"Type": "Parallel", "Branches": [
+        {"StartAt": "S3", "States": {"S3": {"Type": "Parallel", "Branches": [
+            {"StartAt": "S5", "States": {"S5": Pz(Next="S6"), "S6": {"Type": "Wait", "Seconds": 12, "Next": "S8"}, "S8": Pz(End=True)}},
+            {"StartAt": "S9", "States": {"S9": {"Type": "Fail", "Error": "My Error", "Cause": "because"}}}],
+            "Catch": [{"ErrorEquals": ["States.ALL"], "Next": "S4"}], "Next": "S4"}, "S4": Pz(Result="s4", End=True)}},
+        {"StartAt": "S12", "States": {"S12": {"Type": "Wait", "Seconds": 5, "Next": "S13"}, "S13": Pz(End=True)}}], "Next": "S2"}, "S2": Pz(Result="A", End=True)}}
+    sub4 = type(ctx)(ctx.check_id, ctx.tier, ctx.seed)
+    if sl.validate(m4) == []:
+        run_accepted(sub4, m4, "witness")
+    hit = [v for v in sub4.violations if v["mechanism"] == "fanout-failure-handled-siblings-live"]
+    ctx.witness("fanout-failure-handled-siblings-live", bool(hit), dict(kinds=sorted({v["kind"] for v in hit})))
+    for v in sub4.violations:
+        if v["mechanism"] != "fanout-failure-handled-siblings-live":
+            ctx.violation(v["kind"], v["witness"], v["mechanism"])
     # repaired engine defects are regression cases: a Parallel state without branches (accepted by the validator) used to wait for ever
     E = {"Type": "Parallel", "Branches": [], "End": True}
     for x in ({"StartAt": "A", "States": {"A": E}}, {"StartAt": "A", "States": {"A": dict(E, End=None, Next="B", ResultPath="$.r"), "B": {"Type": "Succeed"}}},
